@@ -123,11 +123,11 @@ CLAIMED = {
    design='5 C16'),
  'C13': dict(
    text='Coq theorems about per-agent compartment machines DEFINED FROM scripts regenerated from the flag updates of step_state / set_prognoses / step_die of SIR, SIS, Measles, '
-        'Ebola, Cholera, Gonorrhea and HIV: for every flag valuation that is a valid compartment state and every truth assignment of the time conditions, each method yields a valid '
+        'Ebola, Cholera, Gonorrhea, HIV and Syphilis (stage machine; arrows closed under composition within a call): for every flag valuation that is a valid compartment state and every truth assignment of the time conditions, each method yields a valid '
         'state reached along an arrow of the model (exactly-one partition, sub-state inclusions, no return where immunity is permanent), and step_die clears every flag of the dying '
         'agent and touches nobody else; soundness of the finite exhaustive checker is proved (all_vals complete), so the statements are universally quantified. Every real call of those '
         'methods is recorded and replayed through the generated scripts in Coq; a per-step probe evaluates partition, arrows, timers and infection counts for all eight diseases.',
-   note='Trusted: Coq kernel, translator (script extraction; time conditions are opaque booleans keyed by their text), harness (class-level wrappers). Syphilis and the ordering of '
+   note='Trusted: Coq kernel, translator (script extraction; time conditions are opaque booleans keyed by their text), harness (class-level wrappers). The ordering of '
         'ti_* timers and the cum_infections identity are decided on the implementation only (oracle), not by a theorem: partial for those clauses. Known finding: latent-stage models '
         'never count infections; fixed: Measles exposed agents were also flagged infected.',
    technique='Coq exhaustive-check-with-soundness-proof over generated per-agent transition scripts + in-Coq replay of recorded method calls',
